@@ -223,6 +223,7 @@ inductive Err where
   | unknownType (t : Nat)
   | wrongType                  -- engine refused: key holds another type
   | invalidDb                  -- engine refused: database index ≥ 16
+  | badExpire                  -- engine refused (`check_ttl`): the deadline does not fit signed 64-bit unix milliseconds
   | fuel                       -- model artefact; never returned (fuel = input length + 1)
   deriving DecidableEq, Repr
 
@@ -339,9 +340,18 @@ def upsertAll {β : Type} (m : List (Bytes × β)) (kvs : List (Bytes × β)) : 
 def insertNew (xs : List Bytes) (x : Bytes) : List Bytes := if x ∈ xs then xs else xs ++ [x]
 def insertAll (xs : List Bytes) (ys : List Bytes) : List Bytes := ys.foldl insertNew xs
 
+/-- `i64::MAX`: the largest deadline (unix milliseconds) the engine accepts (`StorageEngine::check_ttl`,
+    called first in `set_string_ex` and `expire`). -/
+def i64max : Nat := 9223372036854775807
+
+def dlOk : Option Nat → Bool
+  | none => true
+  | some d => decide (d ≤ i64max)
+
 /-- `set_value` (used by `set_string[_ex]`): overwrites whatever the key held. -/
 def setValue (valid : Bool) (db : Db) (e : Entry) : Except Err Db :=
-  if valid then .ok (putEntry db e) else .error .invalidDb
+  if !dlOk e.deadline then .error .badExpire
+  else if valid then .ok (putEntry db e) else .error .invalidDb
 
 def rpush (valid : Bool) (db : Db) (k x : Bytes) : Except Err Db :=
   if !valid then .error .invalidDb else
@@ -403,6 +413,7 @@ def xaddIgnore (valid : Bool) (db : Db) (k : Bytes) (e : SEntry) : Db :=
 
 /-- `storage.expire(db, key, ttl)?` with the deadline already made absolute. -/
 def expire (valid : Bool) (db : Db) (k : Bytes) (deadline : Nat) : Except Err Db :=
+  if !dlOk (some deadline) then .error .badExpire else
   if !valid then .error .invalidDb else
   match findKey db k with
   | none => .ok db
@@ -667,7 +678,7 @@ def entryWF (e : Entry) : Bool :=
   strOk e.key && valueWF e.val &&
   match e.deadline with
   | none => true
-  | some d => decide (d < two64)
+  | some d => decide (d ≤ i64max)
 
 def dbWF (db : Db) : Bool :=
   db.all entryWF && decide (db.length < two32) && decide ((db.map (·.key)).Nodup)
